@@ -32,25 +32,38 @@ type Scenario struct {
 	// DescToo: every tuple with a bound >= 1 is explored a second time around the second base
 	// schedule (descending goroutine ids, vsched.Config.Desc).
 	DescToo bool
+	// LazyToo: likewise for the third base schedule (spawned goroutines start late, vsched.Config.LazyStart)
+	LazyToo bool
 }
 
 // AllParams returns the tuples of a tier including the derived "-desc" variants.
 func (sc *Scenario) AllParams(tier string) []Param {
 	ps := sc.Params(tier)
-	if !sc.DescToo {
+	if !sc.DescToo && !sc.LazyToo {
 		return ps
 	}
 	var out []Param
+	variant := func(p Param, key, suffix string) Param {
+		q := p
+		q.Name = p.Name + suffix
+		if q.Bound >= 2 {
+			q.Bound-- // the additional base schedules are explored one level less deep
+		}
+		q.V = map[string]int{key: 1}
+		for k, v := range p.V {
+			q.V[k] = v
+		}
+		return q
+	}
 	for _, p := range ps {
 		out = append(out, p)
-		if p.Bound >= 1 && p.V["desc"] == 0 {
-			q := p
-			q.Name = p.Name + "-desc"
-			q.V = map[string]int{"desc": 1}
-			for k, v := range p.V {
-				q.V[k] = v
+		if p.Bound >= 1 && p.V["desc"] == 0 && p.V["lazy"] == 0 {
+			if sc.DescToo {
+				out = append(out, variant(p, "desc", "-desc"))
 			}
-			out = append(out, q)
+			if sc.LazyToo {
+				out = append(out, variant(p, "lazy", "-lazy"))
+			}
 		}
 	}
 	return out
